@@ -14,7 +14,26 @@ fn witness_hash(w: &WitnessData) -> u64 {
     crate::rng::fnv1a(format!("{w:?}").as_bytes())
 }
 
+/// A witness that does not replay on the system as generated is a C03 violation only if the
+/// model checker was given that system. With `simplify = true` it was given the simplified system;
+/// the same scenario is then re-run without simplification: if that run is clean, the discrepancy
+/// comes from simplification (C01/C11, not claimed here) and is only counted.
 pub fn judge(scn: &McScenario, obs: &McObservation, acc: &mut Acc) -> Option<Violation> {
+    let v = judge_raw(scn, obs, acc)?;
+    if scn.cfg.simplify {
+        let mut plain = scn.clone();
+        plain.cfg.simplify = false;
+        let obs2 = plain.execute(false);
+        let mut scratch = Acc::default();
+        if judge_raw(&plain, &obs2, &mut scratch).is_none() {
+            acc.count("note.discrepancy_attributed_to_simplification", 1);
+            return None;
+        }
+    }
+    Some(v)
+}
+
+fn judge_raw(scn: &McScenario, obs: &McObservation, acc: &mut Acc) -> Option<Violation> {
     let Outcome::Ok(Verdict::Fail(wit)) = &obs.outcome else {
         acc.count("skipped.not_a_failure_verdict", 1);
         return None;
